@@ -254,6 +254,14 @@ def eval_scenario(cfg, src, symbolic: bool) -> List[str]:
         labels = list(range(2000, 2000 + n))
         span = range(2000, 2000 + n)
         txt = [str(x) for x in labels]
+    elif kind == 'nd_int':      # NumPy-array span: goes through the fallback locator
+        labels = list(range(2000, 2000 + n))
+        span = np.arange(2000, 2000 + n)
+        txt = [str(x) for x in labels]
+    elif kind == 'nd_str':
+        labels = [f'p{j}' for j in range(n)]
+        span = np.array(labels)
+        txt = list(labels)
     else:
         labels = [f'p{j}' for j in range(n)]
         span = list(labels)
@@ -393,7 +401,7 @@ def configs(tier: str):
     for fn in ('lag', 'lead', 'shift', 'diff', 'dlog'):
         for n in range(0, (6 if tier == 'quick' else 11)):
             out.append(cfg16(part='helper', fn=fn, n=n))
-    for span in ('list_sym', 'range', 'list_str'):
+    for span in ('list_sym', 'range', 'list_str', 'nd_int', 'nd_str'):
         for n in (1, 2, 3, 4) if tier == 'quick' else (1, 2, 3, 4, 5, 6, 7):
             out.append(cfg16(part='eval', span=span, n=n))
     return out
